@@ -169,6 +169,11 @@ def run_generator(argv, seed):
     """Monitored Generator(argv): returns outcome dict; never raises."""
     import numpy as np
     from matchingproblems.generator import Generator
+    if seed % 3 == 1:
+        try:    # the module's documented creation function
+            from matchingproblems.generator.generator import create as Generator   # noqa: N813
+        except Exception:
+            pass
     random.seed(seed)
     np.random.seed(seed % (2 ** 32))
     err = io.StringIO()
